@@ -20,6 +20,9 @@ def unselected_option_confirmed_elsewhere(case, v):
     sel = {tuple(e) for e in (data.get('sel') or [])}
     if not nodes:
         return False
+    assign = data.get('assign') or {}
+    if len(set(assign.values())) < len(assign):
+        return True   # the same (shared) option node is the selected option of two active choices
     for c in spec.get('choices', []):
         if c['origin'] not in nodes:
             continue
@@ -85,9 +88,18 @@ def pattern_encoder_cannot_decode_declared_value(case, v):
                        if ov.get(str(i), nd.get('conns')) != [0])   # absent or zero-degree nodes do not take part
         n_src, n_tgt = _n_eff('src'), _n_eff('tgt')
         return (n_src <= 1 and n_tgt <= 1) or n_src == 0 or n_tgt == 0 or ms.get('par') is not None
-    # graph level: a connection choice with a single source or a single target connector
+    # graph level: a connection choice with at most one effective (not zero-degree) source or target connector
     spec = _spec(case)
-    return any(len(cc['src']) == 1 or len(cc['tgt']) == 1 for cc in spec.get('conns', []))
+
+    def n_eff(items):
+        n = 0
+        for it in items:
+            if isinstance(it, dict):
+                n += 1
+            elif spec['nodes'][it].get('deg') != [0]:
+                n += 1
+        return n
+    return any(n_eff(cc['src']) <= 1 or n_eff(cc['tgt']) <= 1 for cc in spec.get('conns', []))
 
 
 def pattern_encoder_single_option_variable(case, v):
